@@ -10,7 +10,7 @@
 int cdb_bread(fd,buf,len)
 int fd;
 char *buf;
-int len;
+unsigned int len;
 {
   int r;
   while (len > 0) {
